@@ -824,6 +824,17 @@ impl Archive {
                 return Ok(true); // Empty table is valid
             }
 
+            // A table that does not fit in the file cannot match its digest
+            let file_len = self.reader.get_ref().metadata()?.len();
+            match self
+                .archive_offset
+                .checked_add(offset)
+                .and_then(|p| p.checked_add(size))
+            {
+                Some(end) if end <= file_len => {}
+                _ => return Ok(false),
+            }
+
             // Read raw table data
             self.reader
                 .seek(SeekFrom::Start(self.archive_offset + offset))?;
